@@ -79,6 +79,10 @@ def make_field(comps):
     return VectorField(lambda p: [fc.poly_expr(t, p.x, p.y, p.z) for t in comps], CART[0])
 
 
+def _faces_of(kind):
+    return {"shell": shell_faces, "ball": ball_faces, "hball": hball_faces}[kind]
+
+
 def region_name(reg):
     def r(v):
         return str(fc.rat(v))
@@ -95,19 +99,36 @@ def region_name(reg):
         return f"shell({r(c[0])}<=r<={r(s[0])},{r(c[1])}<=z<={r(s[1])})"
     if reg["k"] == "ball":
         return f"ball(R={r(s[0])})"
+    if reg["k"] == "hball":
+        return f"half-ball(R={r(s[0])},y>=0)"
     return f"box([{r(c[0])},{r(s[0])}]x[{r(c[1])},{r(s[1])}]x[{r(c[2])},{r(s[2])}])"
 
 
 # ---- parametrisations (standard, re-timed, reversed) ---------------------------------------------------
+REV_VARIANTS = ("rev", "swapped")        # parametrisations that run through the curve in the opposite direction
+
+
 def ell_curve(reg, variant, planar2d):
     cx, cy, h = [fc.rat(v) for v in reg["c"]]
     a, b = fc.rat(reg["s"][0]), fc.rat(reg["s"][1])
+
+    def piece(tt, lim, rational=False):
+        traj = [cx + a * (1 - tt ** 2) / (1 + tt ** 2), cy + b * 2 * tt / (1 + tt ** 2)] if rational else \
+            [cx + a * cos(tt), cy + b * sin(tt)]
+        if not planar2d:
+            traj.append(h)
+        return traj, lim
+    if variant == "mixed":        # two halves, the second one given over a DECREASING interval
+        return [piece(T, (T, 0, pi)), piece(-T, (T, -pi, -2 * pi))]
+    if variant == "halves":
+        return [piece(T, (T, -pi, 0)), piece(T, (T, 0, pi))]
+    if variant == "rational":     # stereographic parametrisation of the whole ellipse, infinite limits
+        return [piece(T, (T, -sp.oo, sp.oo), rational=True)]
     tt, lim = {"std": (T, (T, 0, 2 * pi)), "retime": (2 * T, (T, 0, pi)),
-               "shift": (T + pi / 3, (T, -pi / 3, 5 * pi / 3)), "rev": (-T, (T, 0, 2 * pi))}[variant]
-    traj = [cx + a * cos(tt), cy + b * sin(tt)]
-    if not planar2d:
-        traj.append(h)
-    return [(traj, lim)]
+               "shift": (T + pi / 3, (T, -pi / 3, 5 * pi / 3)), "rev": (-T, (T, 0, 2 * pi)),
+               "swapped": (T, (T, 2 * pi, 0)),                     # the standard parametrisation, limits swapped
+               "minus_pi_pi": (T, (T, -pi, pi))}[variant]
+    return [piece(tt, lim)]
 
 
 def ell_surface(reg, variant, planar2d):
@@ -127,15 +148,19 @@ def ell_surface(reg, variant, planar2d):
 
 def _edges(corners, h, variant, planar2d):
     tt, lim = {"std": (T, (T, 0, 1)), "retime": (2 * T, (T, 0, sp.Rational(1, 2))), "shift": (T - 1, (T, 1, 2)),
-               "rev": (T, (T, 0, 1))}[variant]
+               "rev": (T, (T, 0, 1)), "swapped": (T, (T, 1, 0)), "mixed": (T, (T, 0, 1))}[variant]
     out = []
-    for (ax, ay), (bx, by) in zip(corners[:-1], corners[1:]):
+    for i, ((ax, ay), (bx, by)) in enumerate(zip(corners[:-1], corners[1:])):
+        lim_i = lim
         if variant == "rev":
             (ax, ay), (bx, by) = (bx, by), (ax, ay)
+        elif variant == "mixed" and i % 2 == 1:
+            # the same side in the same direction, written from its far end over a decreasing interval
+            (ax, ay), (bx, by), lim_i = (bx, by), (ax, ay), (T, 1, 0)
         traj = [ax + (bx - ax) * tt, ay + (by - ay) * tt]
         if not planar2d:
             traj.append(h)
-        out.append((traj, lim))
+        out.append((traj, lim_i))
     return out
 
 
@@ -210,7 +235,17 @@ def ball_faces(reg, variant):
     return [([rad * sin(U) * cos(az), rad * sin(U) * sin(az), rad * cos(U)], (U, 0, pi), (V, 0, 2 * pi / k))]
 
 
+def hball_faces(reg, variant):
+    rad = fc.rat(reg["s"][0])
+    k = 2 if variant == "retime" else 1
+    az = k * V
+    return [([rad * sin(U) * cos(az), rad * sin(U) * sin(az), rad * cos(U)], (U, 0, pi), (V, 0, pi / k)),   # half sphere
+            ([V * sin(k * U), 0, V * cos(k * U)], (U, 0, 2 * pi / k), (V, 0, rad))]      # disc y = 0, normal -e_y
+
+
 def curv_limits(reg):
+    if reg["k"] == "hball":
+        return "sph", [(0, fc.rat(reg["s"][0])), (0, pi), (0, pi)]
     if reg["k"] == "shell":
         return "cyl", [(fc.rat(reg["c"][0]), fc.rat(reg["s"][0])), (0, 2 * pi), (fc.rat(reg["c"][1]), fc.rat(reg["s"][1]))]
     return "sph", [(0, fc.rat(reg["s"][0])), (0, 2 * pi), (0, pi)]
@@ -325,8 +360,8 @@ def replay_case(case):
         _run(out, "flux_across_volume_boundary", "flux3", comps3, reg, "dependent limits", False, case["flux3"],
              [lambda: an.flux_across_volume_boundary(field3, *tet_limits(reg))])
         return out.result()
-    if reg["k"] in ("shell", "ball"):
-        faces = shell_faces if reg["k"] == "shell" else ball_faces
+    if reg["k"] in ("shell", "ball", "hball"):
+        faces = _faces_of(reg["k"])
         for variant in ("std", "retime"):
             _run(out, "flux_across_surface", "flux3", comps3, reg, variant, False, case["flux3"],
                  [lambda f=f: an.flux_across_surface(field3, *f) for f in faces(reg, variant)])
@@ -343,10 +378,11 @@ def replay_case(case):
                       "tri": (tri_edges, tri_surface)}[reg["k"]]
     extra = ("direct",) if reg["k"] == "tri" else ()
     # circulation: along the curve, and from the curl over a surface spanned by it
-    for variant in ("std", "retime", "shift", "rev"):
-        exp = case["circrev"] if variant == "rev" else case["circ"]
-        planar2d = in_plane0 and variant in ("std", "rev")        # two-component trajectories where possible
-        _run(out, "circulation_along_curve", "circ", comps3, reg, variant, variant == "rev", exp,
+    more = ("minus_pi_pi", "halves", "rational") if reg["k"] == "ell" else ()
+    for variant in ("std", "retime", "shift", "rev", "swapped", "mixed") + more:
+        exp = case["circrev"] if variant in REV_VARIANTS else case["circ"]
+        planar2d = in_plane0 and variant in ("std", "rev", "mixed")        # two-component trajectories where possible
+        _run(out, "circulation_along_curve", "circ", comps3, reg, variant, variant in REV_VARIANTS, exp,
              [lambda tr=tr, lim=lim: an.circulation_along_curve(field3, tr, lim)
               for tr, lim in curve(reg, variant, planar2d)])
     for variant in ("std", "retime", "rev", "curved") + extra:
@@ -369,9 +405,11 @@ def replay_case(case):
     if case.get("planar") == 1:
         comps2 = comps3[:2]
         field2 = make_field(comps2)
-        for variant in ("std", "retime", "rev"):
-            exp = case["flux2rev"] if variant == "rev" else case["flux2"]
-            _run(out, "flux_across_curve", "flux2", comps2, reg, variant, variant == "rev", exp,
+        # (the rational parametrisation is left out here: the unit normal of a rationally parametrised ellipse
+        #  makes SymPy's integration hang)
+        for variant in ("std", "retime", "rev", "swapped", "mixed") + more[:2]:
+            exp = case["flux2rev"] if variant in REV_VARIANTS else case["flux2"]
+            _run(out, "flux_across_curve", "flux2", comps2, reg, variant, variant in REV_VARIANTS, exp,
                  [lambda tr=tr, lim=lim: an.flux_across_curve(field2, tr, lim)
                   for tr, lim in curve(reg, variant, True)])
         for variant in ("std", "retime") + extra:
@@ -391,9 +429,13 @@ def replay_native(case):
     system, lims = curv_limits(reg)
     if n["sys"] != system:
         raise RuntimeError(f"native field {n} emitted for region {reg}")
-    comp, a, c = n["comp"], n["a"], n["c"]
+    comp, a, c, m = n["comp"], n["a"], n["c"], n.get("m", [0, 0, 0])
+    azimuthal = system == "sph" and comp == 2       # m(x, y, z) * r sin(phi) e_theta = m * (-y, x, 0)
 
     def mono(q):
+        if azimuthal:
+            x, y, z = fc.cart_coords_in("sph", q) if q[0] is not fc.RAD else (fc.X, fc.Y, fc.Z)
+            return x ** m[0] * y ** m[1] * z ** m[2] * (q[0] * sin(q[2]) if q[0] is not fc.RAD else fc.RHO)
         return q[0] ** a * (q[2] ** c if system == "cyl" else 1)
     # the Cartesian polynomial the model works with must BE this field (the harness' own frames decide)
     cart = [fc.merge([[list(e), list(v)] for e, v in comp_terms]) for comp_terms in case["cart"]]
@@ -404,6 +446,8 @@ def replay_native(case):
             raise RuntimeError(f"model's Cartesian form of the native field {n} is not the field: component {j + 1}")
     names = ("r", "theta", "z") if system == "cyl" else ("r", "theta", "phi")
     label = f"{system}:{names[0]}^{a}" + (f"*z^{c}" if system == "cyl" and c else "") + f"*e_{names[comp - 1]}"
+    if azimuthal:
+        label = f"sph:x^{m[0]}*y^{m[1]}*z^{m[2]}*r*sin(phi)*e_theta"
     name = fc.field_name(cart)
     for variant, length in (("native, 3 components", 3), ("native, trailing zero components omitted", comp)):
         field = VectorField(lambda p, length=length: [mono(_coords(p)) if i + 1 == comp else sp.S.Zero
@@ -412,7 +456,7 @@ def replay_native(case):
              [lambda: an.flux_across_volume_boundary(field, *lims)], name=f"{label}={name}")
     # the flux through the faces (Cartesian form of the same field) must be the same number
     fieldc = make_field(cart)
-    faces = shell_faces if reg["k"] == "shell" else ball_faces
+    faces = _faces_of(reg["k"])
     _run(out, "flux_across_surface", "flux3", cart, reg, "std", False, case["flux3"],
          [lambda f=f: an.flux_across_surface(fieldc, *f) for f in faces(reg, "std")], name=f"{label}={name}")
     return out.result()
@@ -614,7 +658,10 @@ def main() -> int:
                         run.violation(key, what, res["case"])
             run.coverage["trigonometric_field_calls_decided_by_harness_outside_TLC_fragment"] = n_trig
     run.coverage["bounds"] = {"models": t["models"], "emissions": t["emits"], "trace_D": TRACE_D,
-                              "variants": {"curve": ["std", "retime (t -> 2t)", "shift (t -> t + c)", "rev"],
+                              "variants": {"curve": ["std", "retime (t -> 2t)", "shift (t -> t + c)", "rev (t -> -t / sides reversed)",
+                                                     "swapped (standard parametrisation, limits swapped: decreasing interval)",
+                                                     "mixed (pieces over increasing and decreasing intervals)",
+                                                     "ellipse: (-pi, pi), two halves, rational parametrisation over (-oo, oo)"],
                                            "surface": ["std", "retime", "rev (parameters swapped)"] +
                                                       ["curved surface with the same boundary (Integrals!Graph)",
                                                        "std / curved with the trailing zero components of the field omitted"],
